@@ -44,6 +44,39 @@ enum Probe {
     SliceAxis(usize, usize, usize),
     Broadcast(Vec<usize>),
     Iter,
+    /// `try_slice` / `try_slice_mut` with indices and step-1 (or step -1) ranges
+    Slice(Vec<SI>),
+}
+
+/// One slice item: index, `start..end` / `start..` with step 1, or a range with step -1.
+#[derive(Clone, Debug)]
+enum SI {
+    Idx(isize),
+    Rng(isize, Option<isize>),
+    Neg(isize, Option<isize>),
+}
+
+fn fmt_si(x: &SI) -> String {
+    let e = |e: &Option<isize>| e.map(|v| v.to_string()).unwrap_or("_".into());
+    match x {
+        SI::Idx(i) => format!("i{i}"),
+        SI::Rng(s, en) => format!("{s}:{}", e(en)),
+        SI::Neg(s, en) => format!("n{s}:{}", e(en)),
+    }
+}
+
+fn parse_si(w: &str) -> SI {
+    if let Some(r) = w.strip_prefix('i') {
+        return SI::Idx(r.parse().unwrap());
+    }
+    let (neg, w) = match w.strip_prefix('n') {
+        Some(r) => (true, r),
+        None => (false, w),
+    };
+    let (a, b) = w.split_once(':').unwrap();
+    let s: isize = a.parse().unwrap();
+    let e: Option<isize> = if b == "_" { None } else { Some(b.parse().unwrap()) };
+    if neg { SI::Neg(s, e) } else { SI::Rng(s, e) }
 }
 
 #[derive(Clone, Debug)]
@@ -82,6 +115,13 @@ fn fmt_probe(p: &Probe) -> String {
         Probe::SliceAxis(a, s, e) => format!("x:{a},{s},{e}"),
         Probe::Broadcast(t) => format!("b:{}", list(t)),
         Probe::Iter => "it".into(),
+        Probe::Slice(items) => {
+            if items.is_empty() {
+                "r:-".into()
+            } else {
+                format!("r:{}", hcommon::join(items.iter().map(fmt_si), "/"))
+            }
+        }
     }
 }
 
@@ -129,6 +169,11 @@ fn parse_case(line: &str) -> Case {
                 if v != "-" {
                     for p in v.split(';') {
                         let (kind, arg) = p.split_once(':').unwrap_or((p, ""));
+                        if kind == "r" {
+                            let items = if arg == "-" { vec![] } else { arg.split('/').map(parse_si).collect() };
+                            c.probes.push(Probe::Slice(items));
+                            continue;
+                        }
                         let a = parse_list(arg);
                         c.probes.push(match kind {
                             "g" => Probe::Get(a),
@@ -195,6 +240,175 @@ fn all_indices(shape: &[usize]) -> Option<Vec<Vec<usize>>> {
                 break;
             }
             idx[d] = 0;
+        }
+    }
+}
+
+use rten_tensor::{SliceItem, SliceRange, TensorView, TensorViewMut};
+
+fn si_to_item(x: &SI) -> SliceItem {
+    match x {
+        SI::Idx(i) => SliceItem::Index(*i),
+        SI::Rng(s, e) => SliceItem::Range(SliceRange::new(*s, *e, 1)),
+        SI::Neg(s, e) => SliceItem::Range(SliceRange::new(*s, *e, -1)),
+    }
+}
+
+fn si_to_range(x: &SI) -> SliceRange {
+    match x {
+        SI::Rng(s, e) => SliceRange::new(*s, *e, 1),
+        SI::Neg(s, e) => SliceRange::new(*s, *e, -1),
+        SI::Idx(_) => unreachable!(),
+    }
+}
+
+/// Ideal `min_data_len` of a shape/strides pair.
+fn ideal_mdl(shape: &[usize], strides: &[usize]) -> u128 {
+    if shape.iter().any(|&s| s == 0) {
+        return 0;
+    }
+    shape.iter().zip(strides).map(|(&s, &st)| (s as u128 - 1) * st as u128).sum::<u128>() + 1
+}
+
+/// Describe a view produced by slicing and check it: its storage lies inside the parent's
+/// region, it is long enough for the view's layout, and indexing stays inside it.
+fn check_view_meta(what: &str, shape: &[usize], strides: &[usize], ptr: usize, slen: usize, region: Region) -> (usize, Option<String>) {
+    let start = ptr.wrapping_sub(region.base) / 4;
+    if ptr < region.base || start > region.len || slen > region.len - start.min(region.len) {
+        return (start, Some(format!("{what}: storage [{start},+{slen}) outside parent storage of {}", region.len)));
+    }
+    let need = ideal_mdl(shape, strides);
+    if need > slen as u128 {
+        return (start, Some(format!("{what}: view of shape {:?} strides {:?} needs {need} elements but its storage has {slen}", shape, strides)));
+    }
+    (start, None)
+}
+
+fn report_view(what: &str, v: TensorView<u32>, region: Region) -> (String, Option<String>) {
+    let shape = v.shape().to_vec();
+    let strides = v.strides().to_vec();
+    let slen = v.storage().len();
+    let ptr = v.data_ptr() as usize;
+    let (start, mut msg) = check_view_meta(what, &shape, &strides, ptr, slen, region);
+    let len = hcommon::catch(|| v.len()).map(|x| x.to_string()).unwrap_or("panic".into());
+    let hreg = Region { base: ptr, len: slen };
+    let probe = |i: &Vec<usize>, msg: &mut Option<String>| {
+        if let Ok(Some(e)) = hcommon::catch(|| v.get(i.as_slice()).map(|r| r as *const u32)) {
+            if let Err(m) = hreg.locate(e) {
+                if msg.is_none() {
+                    *msg = Some(format!("{what}: index {:?}: {m}", i));
+                }
+            }
+        }
+    };
+    match all_indices(&shape) {
+        Some(ix) => {
+            for i in ix {
+                probe(&i, &mut msg);
+            }
+        }
+        None => {
+            probe(&shape.iter().map(|s| s.saturating_sub(1)).collect(), &mut msg);
+            probe(&shape.iter().map(|s| (*s > 1) as usize).collect(), &mut msg);
+        }
+    }
+    (format!("V{start}+{slen}[{}]st[{}]len={len}", list(&shape), list(&strides)), msg)
+}
+
+fn report_view_mut(what: &str, mut v: TensorViewMut<u32>, region: Region) -> (String, Option<String>) {
+    let shape = v.shape().to_vec();
+    let strides = v.strides().to_vec();
+    let slen = v.storage_mut().len();
+    let ptr = v.data_ptr() as usize;
+    let (start, mut msg) = check_view_meta(what, &shape, &strides, ptr, slen, region);
+    let len = hcommon::catch(|| v.len()).map(|x| x.to_string()).unwrap_or("panic".into());
+    let hreg = Region { base: ptr, len: slen };
+    let mut seen: HashSet<usize> = HashSet::new();
+    let idxs: Vec<Vec<usize>> = match all_indices(&shape) {
+        Some(ix) => ix,
+        None => vec![
+            shape.iter().map(|s| s.saturating_sub(1)).collect(),
+            shape.iter().map(|s| (*s > 1) as usize).collect(),
+        ],
+    };
+    let enumerated = all_indices(&shape).is_some();
+    for i in idxs {
+        if let Ok(Some(e)) = hcommon::catch(|| v.get_mut(i.as_slice()).map(|r| r as *mut u32 as *const u32)) {
+            match hreg.locate(e) {
+                Err(m) => {
+                    if msg.is_none() {
+                        msg = Some(format!("{what}: index {:?}: {m}", i));
+                    }
+                }
+                Ok(o) => {
+                    if enumerated && !seen.insert(o) && msg.is_none() {
+                        msg = Some(format!("{what}: two indices of the mutable view map to element {o}"));
+                    }
+                }
+            }
+        }
+    }
+    (format!("V{start}+{slen}[{}]st[{}]len={len}", list(&shape), list(&strides)), msg)
+}
+
+/// `try_slice` on an immutable view. NdLayout tensors sliced with ranges only take the
+/// static-rank path (`NdLayout::slice::<N>` via a tuple), everything else `slice_dyn`.
+fn slice_probe_view(t: TensorView<u32>, items: &[SI], is_nd: bool, region: Region) -> (String, Option<String>) {
+    let all_ranges = items.iter().all(|i| !matches!(i, SI::Idx(_)));
+    let n = t.ndim();
+    if is_nd && all_ranges && items.len() == n && (1..=3).contains(&n) {
+        let r: Vec<SliceRange> = items.iter().map(si_to_range).collect();
+        let res = match n {
+            1 => t.nd_view::<1>().try_slice((r[0],)).map(|v| v.as_dyn()),
+            2 => t.nd_view::<2>().try_slice((r[0], r[1])).map(|v| v.as_dyn()),
+            _ => t.nd_view::<3>().try_slice((r[0], r[1], r[2])).map(|v| v.as_dyn()),
+        };
+        match res {
+            Ok(v) => report_view("slice", v, region),
+            Err(_) => ("err".into(), None),
+        }
+    } else {
+        let its: Vec<SliceItem> = items.iter().map(si_to_item).collect();
+        match t.try_slice(its.as_slice()) {
+            Ok(v) => report_view("slice", v, region),
+            Err(_) => ("err".into(), None),
+        }
+    }
+}
+
+fn slice_probe_mut(mut t: TensorViewMut<u32>, items: &[SI], is_nd: bool, region: Region) -> (String, Option<String>) {
+    let all_ranges = items.iter().all(|i| !matches!(i, SI::Idx(_)));
+    let n = t.ndim();
+    if is_nd && all_ranges && items.len() == n && (1..=3).contains(&n) {
+        let r: Vec<SliceRange> = items.iter().map(si_to_range).collect();
+        match n {
+            1 => {
+                let mut v = t.nd_view_mut::<1>();
+                match v.try_slice_mut((r[0],)) {
+                    Ok(mut s) => report_view_mut("slice_mut", s.as_dyn_mut(), region),
+                    Err(_) => ("err".into(), None),
+                }
+            }
+            2 => {
+                let mut v = t.nd_view_mut::<2>();
+                match v.try_slice_mut((r[0], r[1])) {
+                    Ok(mut s) => report_view_mut("slice_mut", s.as_dyn_mut(), region),
+                    Err(_) => ("err".into(), None),
+                }
+            }
+            _ => {
+                let mut v = t.nd_view_mut::<3>();
+                match v.try_slice_mut((r[0], r[1], r[2])) {
+                    Ok(mut s) => report_view_mut("slice_mut", s.as_dyn_mut(), region),
+                    Err(_) => ("err".into(), None),
+                }
+            }
+        }
+    } else {
+        let its: Vec<SliceItem> = items.iter().map(si_to_item).collect();
+        match t.try_slice_mut(its.as_slice()) {
+            Ok(s) => report_view_mut("slice_mut", s, region),
+            Err(_) => ("err".into(), None),
         }
     }
 }
@@ -348,6 +562,7 @@ macro_rules! gen_runner {
                                         (format!("B[{}]len={}", list(&st), blen), msg)
                                     }
                                 },
+                                Probe::Slice(items) => slice_probe_view(t.as_dyn(), items, c.nd, region),
                                 Probe::Iter => {
                                     if (t.len() as u128) > ENUM_LIMIT {
                                         ("big".into(), None)
@@ -489,6 +704,7 @@ macro_rules! gen_runner {
                                         (format!("B[{}]len={}", list(&st), blen), msg)
                                     }
                                 },
+                                Probe::Slice(items) => slice_probe_mut(t.as_dyn_mut(), items, c.nd, region),
                                 Probe::Iter => {
                                     if (t.len() as u128) > ENUM_LIMIT {
                                         ("big".into(), None)
@@ -1045,6 +1261,92 @@ fn wrap_to_small(rng: &mut Rng) -> Option<(Vec<usize>, usize)> {
     Some((vec![d as usize, q as usize], k as usize))
 }
 
+/// Slice items for `shape`: per axis an index or a step-1 range in every spelling (positive,
+/// negative, open end), in-bounds reversed (`5..2`), empty (`3..3`), out of bounds; rarely a
+/// range with step -1 (rejected by `slice_layout`) or more items than dimensions.
+fn gen_slice_items(rng: &mut Rng, shape: &[usize]) -> Vec<SI> {
+    let rank = shape.len();
+    let n_items = if rng.chance(1, 20) { rank + 1 } else if rng.chance(2, 3) { rank } else { rng.usize_below(rank + 1) };
+    let mut items = vec![];
+    for d in 0..n_items {
+        let size = shape.get(d).copied().unwrap_or(2).min(1 << 20) as isize;
+        let spell = |rng: &mut Rng, v: isize| -> isize {
+            // a position 0..=size written from the front or from the back
+            if rng.chance(1, 3) && v < size { v - size } else { v }
+        };
+        let pos = |rng: &mut Rng| -> isize {
+            match rng.below(8) {
+                0 => size + 1 + rng.below(2) as isize,
+                1 => -size - 1 - rng.below(2) as isize,
+                _ => rng.below(size as u64 + 1) as isize,
+            }
+        };
+        items.push(match rng.below(12) {
+            0 | 1 => {
+                let i = pos(rng);
+                SI::Idx(spell(rng, i))
+            }
+            2 => SI::Rng(0, None),
+            3 => {
+                let a = pos(rng);
+                SI::Rng(spell(rng, a), None)
+            }
+            4 => {
+                let a = pos(rng);
+                SI::Neg(a, if rng.chance(1, 2) { None } else { Some(pos(rng)) })
+            }
+            5 | 6 | 7 => {
+                // reversed or empty, in bounds
+                let a = rng.below(size as u64 + 1) as isize;
+                let b = rng.below(a as u64 + 1) as isize;
+                SI::Rng(spell(rng, a), Some(spell(rng, b)))
+            }
+            _ => {
+                let a = pos(rng);
+                let b = pos(rng);
+                SI::Rng(spell(rng, a), Some(spell(rng, b)))
+            }
+        });
+    }
+    items
+}
+
+/// Every `start..end` pair (both spellings, incl. one step out of bounds) on every axis of two
+/// small tensors, through every slicing entry point.
+fn slice_sweep(ovf: bool) -> Vec<Case> {
+    let mut out = vec![];
+    for (shape, nd) in [(vec![5usize], false), (vec![5], true), (vec![2, 3], false), (vec![2, 3], true), (vec![3, 1, 2], false)] {
+        let len: usize = shape.iter().product();
+        for axis in 0..shape.len() {
+            let size = shape[axis] as isize;
+            let mut probes = vec![];
+            for a in -size - 1..=size + 1 {
+                for b in -size - 1..=size + 1 {
+                    let mut items: Vec<SI> = (0..axis).map(|_| SI::Rng(0, None)).collect();
+                    items.push(SI::Rng(a, Some(b)));
+                    if nd {
+                        // pad so the static-rank path is taken
+                        while items.len() < shape.len() {
+                            items.push(SI::Rng(0, None));
+                        }
+                    }
+                    probes.push(Probe::Slice(items));
+                }
+            }
+            for chunk in probes.chunks(12) {
+                for ctor in ["tfd", "fsws"] {
+                    out.push(Case {
+                        ovf, nd, ctor: ctor.into(), shape: shape.clone(),
+                        strides: if ctor == "fsws" { Some(contiguous(&shape)) } else { None },
+                        len, probes: chunk.to_vec(),
+                    });
+                }
+            }
+        }
+    }
+    out
+}
+
 fn small_probes(rng: &mut Rng, shape: &[usize], owned: bool) -> Vec<Probe> {
     let rank = shape.len();
     let mut ps = vec![];
@@ -1075,7 +1377,8 @@ fn small_probes(rng: &mut Rng, shape: &[usize], owned: bool) -> Vec<Probe> {
             v
         };
         let oob = rng.chance(1, 4);
-        match rng.below(10) {
+        match rng.below(13) {
+            10 | 11 | 12 => ps.push(Probe::Slice(gen_slice_items(rng, shape))),
             0 | 1 => ps.push(Probe::Get(idx(rng, oob))),
             2 | 3 => ps.push(if owned { Probe::GetMut(idx(rng, oob)) } else { Probe::Get(idx(rng, oob)) }),
             4 | 5 => ps.push(Probe::Index(idx(rng, oob))),
@@ -1361,6 +1664,8 @@ fn is_danger(c: &Case) -> bool {
             Probe::Split(_, m) => *m > T,
             Probe::SliceAxis(_, s, e) => *s > T || *e > T,
             Probe::Iter => false,
+            // slices always run in the child process (a wrapped size makes every accessor unchecked)
+            Probe::Slice(_) => true,
         })
 }
 
@@ -1409,6 +1714,7 @@ fn main() {
             ovf, nd, ctor: "fs".into(), shape: vec![0, 1 << 40, 1 << 40], strides: None, len: 0, probes: vec![],
         });
     }
+    cases.extend(slice_sweep(ovf));
     let (n_small, n_huge, n_bc) = if args.thorough { (600_000, 60_000, 6_000) } else { (60_000, 6_000, 600) };
     for _ in 0..n_small {
         cases.push(gen_small(&mut rng, ovf));
@@ -1455,6 +1761,13 @@ fn main() {
                 Probe::SliceAxis(..) => "probe_slice_axis",
                 Probe::Broadcast(_) => "probe_broadcast",
                 Probe::Iter => "probe_iter",
+                Probe::Slice(items) => {
+                    if items.iter().any(|i| matches!(i, SI::Rng(s, Some(e)) if (*s >= 0) == (*e >= 0) && e < s)) {
+                        "probe_slice_reversed_range"
+                    } else {
+                        "probe_slice"
+                    }
+                }
             });
         }
         let nontrivial = class == "ok" && c.shape.len() >= 2 && c.shape.iter().all(|&s| s > 0) && c.shape.iter().any(|&s| s > 1) && !c.probes.is_empty();
@@ -1529,5 +1842,5 @@ fn main() {
         w.kill();
     }
     out.note(&format!("child-process crashes observed: {crashes}"));
-    out.finish("random API programs on rten-tensor: constructor (try_from_data, from_data, from_data_with_strides, from_slice_with_strides, from_storage_and_layout after resize_dim, from_shape; NdLayout rank 1-4 and DynLayout rank 0-4) with small shapes (contiguous, permuted, stepped, broadcast, perturbed, arbitrary strides; exact, short, long storage) and huge/overflowing shapes and strides (products wrapping to small numbers, (size-1)*stride wrapping, zero dims mixed with huge dims), followed by probes get/get_mut/Index/IndexMut (in and out of bounds), split_at(_mut), slice_axis(_mut), try_broadcast (incl. huge targets), iter(_mut); plus programs on owned tensors with spare capacity (contiguous / gapped / huge-stride layouts with an empty or unit growth axis): has_capacity (small and huge sizes), append of zero-stride views (matching, mismatching, huge), clip_dim, with the no-alias / in-storage oracle re-evaluated after every operation including panicking ones; non-trivial = accepted, rank>=2, no empty dim, some dim>1, at least one probe; distinct by request text");
+    out.finish("random API programs on rten-tensor: constructor (try_from_data, from_data, from_data_with_strides, from_slice_with_strides, from_storage_and_layout after resize_dim, from_shape; NdLayout rank 1-4 and DynLayout rank 0-4) with small shapes (contiguous, permuted, stepped, broadcast, perturbed, arbitrary strides; exact, short, long storage) and huge/overflowing shapes and strides (products wrapping to small numbers, (size-1)*stride wrapping, zero dims mixed with huge dims), followed by probes get/get_mut/Index/IndexMut (in and out of bounds), split_at(_mut), slice_axis(_mut), try_broadcast (incl. huge targets), iter(_mut), try_slice / try_slice_mut with indices and step-1 ranges in every spelling (negative, open, empty, in-bounds reversed, out of bounds; static-rank and dynamic paths; an exhaustive start/end sweep on small tensors) whose result views are checked for storage containment, storage length >= ideal min_data_len and in-storage indexing; plus programs on owned tensors with spare capacity (contiguous / gapped / huge-stride layouts with an empty or unit growth axis): has_capacity (small and huge sizes), append of zero-stride views (matching, mismatching, huge), clip_dim, with the no-alias / in-storage oracle re-evaluated after every operation including panicking ones; non-trivial = accepted, rank>=2, no empty dim, some dim>1, at least one probe; distinct by request text");
 }
